@@ -146,10 +146,5 @@ Proof.
   pose proof (Z.mod_pos_bound (fasthash64 k (Z.of_nat r)) (Z.of_nat width) ltac:(lia)). lia.
 Qed.
 
-(* every kernel that maps a key to its counters computes the column, in its loop over the rows, with the expression
-   read from the source on this run (the Consts.rowhash constants): the row index is the seed and the reduction is modulo width *)
-Lemma rowhash_sites_ok :
-  let e := "for row in range(depth): fasthash64(key, row) % width"%string in
-  Consts.rowhash_query_linear = e /\ Consts.rowhash_query_log16 = e /\ Consts.rowhash_query_log8 = e /\
-  Consts.rowhash_hh_add = e /\ Consts.rowhash_hh_max_count = e.
-Proof. repeat split; reflexivity. Qed.
+(* rowhash_sites_ok (the row-hash expression read from the source) lives in RowHashSites.v, so that a changed row hash
+   breaks only the obligations of the property that is about the row hash (C14), not every theory that uses hash_bucket *)
